@@ -198,6 +198,145 @@ def tl_content_stores(prog, of):
     return out
 
 
+# iterator adapters that hand on every element (possibly decorated / reordered); anything else between the line list and the string pass
+# is treated as able to drop lines
+KEEPS_EVERY_ELEMENT = ("iter", "iter_mut", "into_iter", "enumerate", "rev", "by_ref", "peekable", "copied", "cloned", "zip", "inspect")
+
+
+# iterator adapters that stop calling their closure as soon as it has answered
+SHORT_CIRCUITING = ("any", "all", "find", "find_map", "position", "rposition", "try_for_each", "try_fold", "take_while", "map_while", "skip_while", "is_sorted_by")
+
+
+def effectful_short_circuits(prog, crates=("pasfmt_core",), effects=("pasfmt_core::lang::Token::set_content",), field_writes=(("pasfmt_core::lang::FormattingData", None),)):
+    """Call sites `iter.any(closure)` (all / find / position / try_for_each / take_while ..) whose closure — itself, its nested closures or the
+    workspace functions it calls (depth 4) — replaces a token's text or stores into a FormattingData: [(site, what the closure does)].
+    Such an adapter stops at the first element for which the closure answers; the effect on the remaining elements never happens."""
+    memo = {}
+
+    def effect_of(npath, depth=0):
+        if npath in memo:
+            return memo[npath]
+        memo[npath] = None
+        b = prog.body(npath)
+        res = None
+        if b is not None and any(b.crate.startswith(c) for c in crates):
+            fam = [b] + [x for x in prog.bodies.values() if x.npath.startswith(b.npath + "::{closure")]
+            for x in fam:
+                for c in x.calls():
+                    tg = prog.callees_of_site(c) | {c.callee or ""}
+                    hit = [t for t in tg if t in effects or any(t.endswith("::" + e.split("::")[-1]) and e.split("::")[-2] in t for e in effects)]
+                    if hit:
+                        res = "calls %s" % hit[0].split("::")[-1]
+                        break
+                    if depth < 4:
+                        for t in tg:
+                            if t and t != npath and not t.startswith(b.npath + "::{closure"):
+                                r = effect_of(t, depth + 1)
+                                if r:
+                                    res = "%s -> %s" % (t.split("::")[-1], r)
+                                    break
+                    if res:
+                        break
+                if res:
+                    break
+                for bb, i, st in x.stmts():
+                    if st["k"] == "assign" and st["dst"]["p"]:
+                        for pe in st["dst"]["p"]:
+                            if pe["k"] == "field" and any(norm(pe.get("adt") or "") == a and (f is None or pe.get("name") == f) for a, f in field_writes):
+                                res = "stores %s.%s" % (pe.get("adt", "").split("::")[-1], pe.get("name"))
+                    if res:
+                        break
+                if res:
+                    break
+        memo[npath] = res
+        return res
+    out = []
+    n = 0
+    for b in prog.bodies.values():
+        if not any(b.crate.startswith(c) for c in crates) or "::tests::" in b.npath:
+            continue
+        for c in b.calls():
+            cal = c.callee or ""
+            if cal.split("::")[-1] not in SHORT_CIRCUITING or not (cal.startswith("core::iter::") or cal.startswith("itertools::") or "Iterator" in cal):
+                continue
+            n += 1
+            for a in c.args[1:]:
+                if a["k"] in ("copy", "move") and not a["place"]["p"]:
+                    clos = b.locals[a["place"]["l"]].get("closure")
+                    if clos:
+                        r = effect_of(norm(clos))
+                        if r:
+                            out.append((c, r))
+    return out, n
+
+
+def no_effect_behind_a_short_circuit(prog, rep, R):
+    """C09.j — "every line terminator of a rewritten literal is the configured one", for every literal: a step that rewrites a token is
+    applied to all the tokens it is meant for.  No closure that replaces token text or stores layout counters is driven by an iterator
+    adapter that stops at the first answer (`any`, `all`, `find`, `position`, `try_for_each`, `take_while` ..): the tokens behind the
+    first hit would keep the text / layout of the input (the second multi-line literal of a line keeps its CRLF and indentation)."""
+    sites, n = effectful_short_circuits(prog)
+    rep.check(not sites, R, "no-effect-behind-a-short-circuit",
+              "a closure that %s is driven by the short-circuiting adapter `%s` in %s: the elements after the first one for which it answers are never visited"
+              % ((sites[0][1], (sites[0][0].callee or "").split("::")[-1], short(sites[0][0].body.npath)) if sites else ("", "", "")),
+              where=sites[0][0].where() if sites else None, instance={"short_circuiting_adapter_sites": n, "with_effects": len(sites)})
+    rep.floor(R, "short-circuiting adapter call sites in the core", n, 10)
+
+
+def string_pass_visits_every_line(prog, rep, R):
+    """C12.h — "afterwards the closing quotes and all interior lines are indented exactly like the opening quotes' line": a literal is
+    re-indented only when its logical line is handed to StringFormatter::format_multiline_strings, so the pass over the lines hands
+    over every line: it iterates the whole line list (no adapter that can drop elements) and calls the formatter in every iteration.
+    Which tokens a logical line owns is not a range (child lines and conditional-directive passes interleave), so a pre-selection of
+    lines by token position leaves the literals of the others with their old indentation."""
+    of = prog.body(OLF_FMT)
+    if not rep.check(of is not None, R, "anchor:OLF::format", "OptimisingLineFormatter::format not found"):
+        return
+    sf = OLF + "multiline_strings::StringFormatter::format_multiline_strings"
+    sites = []
+    for b2 in [of] + list(prog.closures_of(of.npath)):
+        sites += [(b2, c) for c in b2.calls_to(sf)]
+    if not rep.check(len(sites) == 1, R, "anchor:string-pass", "expected one call of format_multiline_strings in OptimisingLineFormatter::format, found %d" % len(sites)):
+        return
+    b2, site = sites[0]
+    src = None
+    every = False
+    if b2 is of:
+        loops = [(h, L) for h, L in of.loops().items() if site.bb in L]
+        loops.sort(key=lambda x: len(x[1]))
+        for h, L in loops:
+            nx = [c for c in of.calls() if c.bb == h and (c.callee or "").endswith("Iterator::next")]
+            if len(nx) == 1:
+                src = canon(of, nx[0].args[0])
+                every = bfs_cycle(of, h, L, {site.bb}) is None
+                break
+    else:
+        # `lines.for_each(|line| ..)` / `.map(..)` closure: the adapter chain it is handed to
+        for c in of.calls():
+            if (c.callee or "").startswith("core::iter::") and len(c.args) == 2 and any(
+                    a["k"] in ("copy", "move") and not a["place"]["p"] and norm(of.locals[a["place"]["l"]].get("closure") or "") == b2.npath for a in c.args[1:]):
+                src = canon(of, c.args[0]) if (c.callee or "").split("::")[-1] in ("for_each", "map", "filter_map", "flat_map", "fold", "try_for_each") else "%s(%s)" % ((c.callee or "").split("::")[-1], canon(of, c.args[0]))
+                rets = set(b2.return_blocks())
+                every = not b2.can_reach_avoiding(0, rets, {site.bb})
+    if not rep.check(src is not None, R, "anchor:string-pass-driver", "the call of format_multiline_strings is not driven by an iterator over the lines"):
+        return
+    flat, depth = "", 0
+    for ch in src:                         # what a closure captures is not part of the adapter chain
+        if ch == "{":
+            depth += 1
+        elif ch == "}":
+            depth -= 1
+        elif depth == 0:
+            flat += ch
+    adapters = re.findall(r"([A-Za-z_][A-Za-z_0-9]*)\(", flat)
+    foreign = [a for a in adapters if a not in KEEPS_EVERY_ELEMENT]
+    whole = re.search(r"\biter\(arg3\)|\binto_iter\(arg3\)", src) is not None
+    rep.check(whole and not foreign and every, R, "string-pass-over-every-line",
+              "the multi-line string pass does not hand every logical line to the string formatter: it iterates %s%s%s — literals on the lines left out keep the indentation of the input"
+              % (src[:120], " (adapters that can drop lines: %s)" % foreign if foreign else "", "" if every else " and an iteration can skip the call"),
+              where=site.where(), instance={"iterates": src[:120], "every_iteration_calls": every})
+
+
 def width_measures_agree(prog, rep, R):
     """Every place that measures token text for the width comparison uses the same measure: the first fill of the per-token length
     cache, its refresh after the multi-line strings were rewritten, and the length of a multi-line token's last line.  If they
@@ -683,6 +822,35 @@ def gap_coverage(prog, rep, R):
         if rep.check(hb is not None, R, "anchor:" + fn, fn + " not found"):
             th = Table(prog, hb)
             rep.check(all(render(r).startswith("Some(") for _, r in th.rows), R, fn + ":always-Some", "%s can return None: %s" % (fn, [render(r) for _, r in th.rows]), instance={"fn": fn, "rows": len(th.rows)})
+    # the helpers that return a whole (before, after) pair decide both sides whenever the neighbouring token exists: a component is
+    # Some(..), the result of spaces_before / spaces_after (always Some, above), or None only on a path that has found no token there.
+    # (A pair helper that declines for some tokens — ignored ones, say — leaves their gaps to whoever comes next: often nobody.)
+    npair = 0
+    for hb in sorted(prog.bodies.values(), key=lambda x: x.npath):
+        if not hb.npath.startswith(TS) or hb.kind == "Closure" or hb.npath == so.npath or hb.locals[0]["ty"].replace(" ", "") != "(core::option::Option<u16>,core::option::Option<u16>)":
+            continue
+        npair += 1
+        try:
+            th = Table(prog, hb, inline=1, opaque=("spaces_before", "spaces_after"))
+        except TooComplex as e:
+            rep.fail(R, "pair-helper-table:" + short(hb.npath), "%s is not a loop-free classifier: %s" % (short(hb.npath), e))
+            continue
+        declines = []
+        for cons, res in th.rows:
+            if not (res.kind == "agg" and len(res.a[2]) == 2):
+                declines.append("result is not a pair: %s" % render(res)[:60])
+                continue
+            absent = any(c[0] == "is" and c[2] == "None" and "get(" in str(c[1]) for c in cons)
+            for side, v in zip(("before", "after"), res.a[2]):
+                r = render(v)
+                if r.startswith("Some(") or r.startswith("call:spaces_before(") or r.startswith("call:spaces_after("):
+                    continue
+                if r == "None" and absent:
+                    continue
+                declines.append("`%s` is %s under %s" % (side, r[:40], [c[1][:70] for c in cons if c[0] == "cond"][:1]))
+        rep.check(not declines, R, "pair-helper-always-decides:" + short(hb.npath), "%s has no opinion about a gap although the neighbouring token exists: %s — the gap is left to the other token's rule, "
+                  "and where that has none either it keeps the input's blanks" % (short(hb.npath), declines[:2]), where="%s:%d" % (hb.file, hb.line), instance={"helper": short(hb.npath), "rows": len(th.rows)})
+    rep.floor(R, "(before, after) pair helpers of the spacing table", npair, 3)
     # the dispatch in TokenSpacing::format: only Identifier leaves `before` open, only Comment(InlineLine) leaves `after` open
     open_before, open_after = set(), set()
     ntup = 0
@@ -1591,6 +1759,7 @@ def check_c09(prog, rep, tier, cfg):
     rep.floor(R, "CR/LF constants used as patterns (split/contains/rfind/trim/memchr/log)", n_pat, 10)
     # ---------------------------------------------------------------- C09.b who uses the newline string, and how
     newline_use_discipline(prog, rep, "C09.b")
+    no_effect_behind_a_short_circuit(prog, rep, "C09.j")
     # ---------------------------------------------------------------- C09.d the wrapper's cached content lengths follow the normalised text
     R = "C09.d"
     of = prog.body(OLF_FMT)
@@ -1867,8 +2036,36 @@ def rewrite_is_reported(prog, rep, R):
               instance={"flag": b.locals[flag].get("name"), "paths_of_one_iteration": len(tb.rows), "paths_with_a_rewrite": nre})
 
 
+def alternatives_are_not_narrowed(prog, rep, R):
+    """C11.i — "if every line fits at some wrap_column, every line fits at any larger one": where the wrapper finds two layouts for the
+    child lines of a token (continued behind the parent token / on lines of their own), both go on the search heap and the line as a
+    whole decides between them — the cheaper child layout can leave no room for what follows it on the parent's line.  Outside the
+    combinators of `Potentials` (which drop an alternative only when its mapping failed) no `Potentials::One` / `None` is built on a
+    path that knows a `Potentials` value to be `Two`: that is a choice between the two made before the rest of the line is costed."""
+    PT = OLF + "types::Potentials"
+    n = 0
+    bad = []
+    for b2 in sorted(prog.bodies.values(), key=lambda x: x.npath):
+        if not b2.npath.startswith(OLF) or b2.npath.startswith(PT + "::") or b2.npath.startswith("<" + PT) or not nondebug(b2.npath):
+            continue
+        for bb, i, st in b2.stmts():
+            if st["k"] == "assign" and st["rv"]["k"] == "aggregate" and norm(st["rv"].get("adt", "")) == PT:
+                n += 1
+                if st["rv"].get("variant") not in ("One", "None"):
+                    continue
+                fx = [f for f in dominating_variant_facts(prog, b2, bb) if f[1] == "is" and tuple(f[2]) == ("Two",)]
+                if fx:
+                    bad.append((b2, st, fx[0][0]))
+    rep.check(not bad, R, "two-layouts-both-reach-the-search",
+              "%s builds Potentials::%s on a path where %s is known to hold two alternatives: one of two layouts is chosen before the rest of the line is costed (the cheaper child layout "
+              "can make the parent's line overflow although the other would fit)" % ((short(bad[0][0].npath), bad[0][1]["rv"].get("variant"), bad[0][2][:80]) if bad else ("", "", "")),
+              where="%s:%d" % (bad[0][0].file, abs(bad[0][1].get("line", 0))) if bad else None, instance={"potentials_built": n, "narrowing_sites": len(bad)})
+    rep.floor(R, "Potentials values built in the wrapper", n, 15)
+
+
 def check_c11(prog, rep, tier, cfg):
     child_line_memo_key_is_complete(prog, rep, "C11.h")
+    alternatives_are_not_narrowed(prog, rep, "C11.i")
     # C11.g — the widths the wrapper compares with wrap_column are the widths that are emitted: every pass that can replace a token's
     # text is registered before the wrapping pass (shared with C03.c)
     import c03 as _c03
